@@ -587,6 +587,48 @@ _NP_RETURNING_NONE = ("np.random.seed", "np.copyto", "np.put", "np.place", "np.p
 
 
 NONNULL_REPO_FUNCTIONS = set()       # simple names of module-level repository functions that never return None (set per Repo build)
+NONNULL_ATTRIBUTES = set()           # attribute names that every class of the repository only ever binds to a value it has dereferenced
+
+
+def nonnull_attributes(repo):
+    """attribute names A such that every store `<obj>.A = V` in the repository has V a non-None expression or a constructor parameter that
+    the same function dereferences unconditionally (`V.dtype`, `V[..]`, `len(V)`, an operator on V): reading `.A` later cannot give None"""
+    ok, bad = set(), set()
+    for q, f in repo.funcs.items():
+        deref = set()
+        for st in f.node.body:                                  # unconditional top-level statements, any position
+            if isinstance(st, (ast.If, ast.For, ast.While, ast.Try, ast.With)):
+                tests = [st.test] if isinstance(st, (ast.If, ast.While)) else []
+                scan = tests
+            else:
+                scan = [st]
+            for part in scan:
+                for x in ast.walk(part):
+                    if isinstance(x, (ast.Attribute, ast.Subscript)) and isinstance(x.value, ast.Name) and isinstance(x.ctx, ast.Load):
+                        deref.add(x.value.id)
+                    if isinstance(x, ast.Call) and isinstance(x.func, ast.Name) and x.func.id == "len" and x.args and isinstance(x.args[0], ast.Name):
+                        deref.add(x.args[0].id)
+        for n in walk_own(f.node):
+            if isinstance(n, ast.Assign):
+                for t in n.targets:
+                    if isinstance(t, ast.Attribute):
+                        v = n.value
+                        good = _nonnull_expr(v) or (isinstance(v, ast.Name) and v.id in deref and v.id in f.params)
+                        (ok if good else bad).add(t.attr)
+            elif isinstance(n, (ast.AugAssign, ast.AnnAssign)) and isinstance(n.target, ast.Attribute):
+                if isinstance(n, ast.AnnAssign) and n.value is None:
+                    continue
+                (ok if isinstance(n, ast.AugAssign) or _nonnull_expr(n.value) else bad).add(n.target.attr)
+    # class-level annotated fields / defaults (dataclasses) may start as None
+    for cq, cn in repo.classes.items():
+        for st in cn.body:
+            if isinstance(st, ast.AnnAssign) and isinstance(st.target, ast.Name):
+                bad.add(st.target.id)
+            elif isinstance(st, ast.Assign):
+                for t in st.targets:
+                    if isinstance(t, ast.Name) and not _nonnull_expr(st.value):
+                        bad.add(t.id)
+    return ok - bad
 
 
 def never_returns_none(fnode):
@@ -640,6 +682,8 @@ def _nonnull_expr(e):
     if isinstance(e, (ast.BinOp, ast.Compare)):
         return True
     if isinstance(e, (ast.List, ast.Tuple, ast.Dict, ast.Set, ast.ListComp, ast.DictComp, ast.SetComp, ast.JoinedStr)):
+        return True
+    if isinstance(e, ast.Attribute) and e.attr in NONNULL_ATTRIBUTES and isinstance(e.value, (ast.Name, ast.Attribute)):
         return True
     return isinstance(e, ast.Constant) and e.value is not None
 
